@@ -1,7 +1,11 @@
 (* C03 — Synchronisation converges: all members end with the same room content.
-   Property theorems only: statement, exact, Print Assumptions.  Proofs: proofs/SyncP.v, proofs/C03P.v.
-   Model: model/Sync.v (one room, one entity of node rows; which days a pull exchanges is an argument —
-   the daily-log comparison is C09's subject). *)
+   Property theorems only: statement, exact, Print Assumptions.  Proofs: proofs/SyncP.v, proofs/C03P.v,
+   proofs/C03Q.v.
+   Model: model/Sync.v = the code after the fix commits ca69f52, bb1bffb, ad91329 (one room, one entity
+   of node rows; which days a pull exchanges is an argument — the daily-log comparison is C09's subject).
+   Former classes 2 (a deletion record removing another version) and 3 (two deletion records collapsing
+   to one) are repaired and are covered by C03_outside_known, which now includes deletions; class 4
+   (a pull that skips a day the receiver needs: history-hash shortcut, C09 class 4) is still open. *)
 From DV Require Import Sync SyncObs SyncP Run_C03 C03P C03Q.
 
 (* the statement at full strength, against the faithful model: for every history the model's own
@@ -9,38 +13,38 @@ From DV Require Import Sync SyncObs SyncP Run_C03 C03P C03Q.
    full rounds all members show the same rows and deletion records) *)
 Definition C03_full : Prop := forall c, spec_C03 c (run_C03 c) = true.
 
-(* refuted on the faithful model: two deletion records of one row in one answer collapse to one
-   (NodeDeletionEntry::with_previous_authors) — class 3 *)
-Theorem C03_refuted_collapse :
-  spec_C03 witness_collapse (run_C03 witness_collapse) = false /\ known_C03 witness_collapse = [3].
-Proof. exact refuted_collapse. Qed.
-Print Assumptions C03_refuted_collapse.
-
-(* ... when a deletion record removes another version than the one it names
-   (NodeDeletionEntry::delete_all deletes whatever is stored) — class 2 *)
-Theorem C03_refuted_other_version :
-  spec_C03 witness_other_version (run_C03 witness_other_version) = false /\ known_C03 witness_other_version = [2].
-Proof. exact refuted_other_version. Qed.
-Print Assumptions C03_refuted_other_version.
-
-(* ... and whenever the log comparison skips a day on which the source holds a row the receiver
-   needs (history-hash shortcut, stale daily hash) — class 4 *)
+(* refuted whenever the log comparison skips a day on which the source holds a row the receiver
+   needs (history-hash shortcut) — class 4, open *)
 Theorem C03_refuted_skipped_day :
   spec_C03 witness_skipped_day (run_C03 witness_skipped_day) = false /\ known_C03 witness_skipped_day = [4].
 Proof. exact refuted_skipped_day. Qed.
 Print Assumptions C03_refuted_skipped_day.
 
 Theorem C03_refuted : ~ C03_full.
-Proof. intros H. pose proof (H witness_collapse) as E. rewrite (proj1 refuted_collapse) in E. discriminate. Qed.
+Proof. intros H. pose proof (H witness_skipped_day) as E. rewrite (proj1 refuted_skipped_day) in E. discriminate. Qed.
 Print Assumptions C03_refuted.
 
-(* (1) Node::filter_existing + write implement the join "greatest (modification date, signature)
-   per row id": for every receiver, every source without deletion records, every selection of days that
-   covers what a complete comparison selects, every row id *)
+(* outside the open class: any number of peers, any history of creations, updates (any clocks inside
+   the envelope, same-millisecond ties included), DELETIONS and pulls in any order, every pull having
+   selected the days a complete comparison selects (known_C03 = []), ending with rounds in which every
+   ordered pair pulls and nothing moves: every member holds the same rows and the same deletion records.
+   [run_sys (init_sys n) ops] is the system whose dumps [run_C03] prints; the envelope (decided on the
+   run) = creations use ids the peer does not know yet, no local update carries a clock behind the
+   version it replaces. *)
+Theorem C03_outside_known : forall n hist final,
+  let c := C03Case n hist final in
+  known_C03 c = [] -> c03_envelope c = true ->
+  full_round n final = true -> c03_quiet c = true ->
+  all_agree (run_sys (init_sys n) (hist ++ final)) = true.
+Proof. exact outside_known. Qed.
+Print Assumptions C03_outside_known.
+
+(* between replicas without deletion records: Node::filter_existing + write implement the join
+   "greatest (modification date, signature) per row id" *)
 Theorem C03_lww_join : forall dst src days x,
-  tombs src = [] -> nodup_ids (nodes src) ->
+  tombs src = [] -> tombs dst = [] -> nodup_ids (nodes src) ->
   days_cover days (needed_days dst src) = true ->
-  find_node x (nodes (fst (fst (pull_replica false dst src days)))) =
+  find_node x (nodes (fst (pull_replica dst src days))) =
   vjoin (find_node x (nodes dst)) (find_node x (nodes src)).
 Proof. exact pull_is_join. Qed.
 Print Assumptions C03_lww_join.
@@ -58,54 +62,52 @@ Theorem C03_join_idempotent : forall a, vjoin a a = a.
 Proof. exact vjoin_idem. Qed.
 Print Assumptions C03_join_idempotent.
 
-(* (2) outside the known classes: any number of peers, any history of creations, updates (any clocks,
-   same-millisecond ties included) and pulls in any order — no deletions —, every pull having selected
-   the days a complete comparison selects (known_C03 = []), ending with rounds in which every ordered
-   pair pulls and nothing is requested: every member holds the same rows and deletion records.
-   [run_sys false (init_sys n) ops] is the system whose dumps [run_C03] prints. *)
-Theorem C03_outside_known : forall n hist final,
-  let c := C03Case n hist final in
-  known_C03 c = [] -> no_deletes (hist ++ final) = true ->
-  only_pulls final = true -> full_round n final = true -> c03_quiet c = true ->
-  all_agree (run_sys false (init_sys n) (hist ++ final)) = true.
-Proof. exact outside_known. Qed.
-Print Assumptions C03_outside_known.
-
-(* (3) a further synchronisation between converged peers transfers no row and changes nothing *)
+(* a further synchronisation between converged peers transfers no row and changes nothing *)
 Theorem C03_converged_stays_quiet : forall dst src days,
-  tombs src = [] -> nodup_ids (nodes src) ->
+  tombs src = [] -> tombs dst = [] -> nodup_ids (nodes src) ->
   (forall x, find_node x (nodes dst) = find_node x (nodes src)) ->
-  snd (fst (pull_replica false dst src days)) = 0%N /\
-  nodes (fst (fst (pull_replica false dst src days))) = nodes dst.
+  snd (pull_replica dst src days) = 0%N /\ nodes (fst (pull_replica dst src days)) = nodes dst.
 Proof. exact converged_stays_quiet. Qed.
 Print Assumptions C03_converged_stays_quiet.
 
-(* (4) the per-pull clause of the oracle, on the model's own states: a pull from a source without
-   deletion records that selects the days a complete comparison selects delivers everything the
-   source has ([delivered] is the function spec_C03 applies to the implementation's dumps) *)
+(* the per-pull clause of the oracle, on the model's own states ([delivered] is the function spec_C03
+   applies to the implementation's dumps) *)
 Theorem C03_pull_delivers : forall dst src days,
-  tombs src = [] -> nodup_ids (nodes src) ->
+  tombs src = [] -> tombs dst = [] -> nodup_ids (nodes src) ->
   days_cover days (needed_days dst src) = true ->
-  delivered src (fst (fst (pull_replica false dst src days))) = true.
+  delivered src (fst (pull_replica dst src days)) = true.
 Proof. exact pull_delivers. Qed.
 Print Assumptions C03_pull_delivers.
 
-(* (5) the same version wins everywhere, whatever the order in which versions arrive: whatever
-   sequence of complete pulls leads from S (no deletion records) to a state in which the members
-   agree on row x, every member then holds the join — greatest (modification date, signature) — of
-   the versions of x the members held in S *)
+(* the same version wins everywhere, whatever the order in which versions arrive: whatever sequence
+   of complete pulls leads from S (no deletion records) to a state in which the members agree on row x,
+   every member then holds the join of the versions of x the members held in S *)
 Theorem C03_winner_order_independent : forall S ops x p,
-  no_tombs S -> wf S -> pulls_in_range (length S) ops -> run_complete false S ops = true ->
+  no_tombs S -> wf S -> pulls_in_range (length S) ops -> run_complete S ops = true ->
   (N.to_nat p < length S)%nat ->
-  (forall q r, find_node x (nodes (get q (run_sys false S ops))) = find_node x (nodes (get r (run_sys false S ops)))) ->
-  find_node x (nodes (get p (run_sys false S ops))) = gview S x.
+  (forall q r, find_node x (nodes (get q (run_sys S ops))) = find_node x (nodes (get r (run_sys S ops)))) ->
+  find_node x (nodes (get p (run_sys S ops))) = gview S x.
 Proof. exact winner_order_independent. Qed.
 Print Assumptions C03_winner_order_independent.
 
+(* regression examples (the former refutation witnesses of the repaired classes) *)
+Example C03_two_records_hold :
+  spec_C03 witness_two_records (run_C03 witness_two_records) = true /\ known_C03 witness_two_records = [].
+Proof. exact two_records_hold. Qed.
+Print Assumptions C03_two_records_hold.
+
+Example C03_other_version_holds :
+  spec_C03 witness_other_version (run_C03 witness_other_version) = true /\ known_C03 witness_other_version = [] /\
+  map (fun r => (map n_mdate (nodes r), length (tombs r))) (run_sys (init_sys 3%N) (c03_ops witness_other_version)) =
+  [([63000], 2%nat); ([63000], 2%nat); ([63000], 2%nat)].
+Proof. exact other_version_holds. Qed.
+Print Assumptions C03_other_version_holds.
+
 Example C03_nonvacuous :
-  known_C03 example_ok = [] /\ no_deletes (c03_ops example_ok) = true /\ only_pulls (c03_final example_ok) = true /\
+  known_C03 example_ok = [] /\ c03_envelope example_ok = true /\
   full_round 3%N (c03_final example_ok) = true /\ c03_quiet example_ok = true /\
   spec_C03 example_ok (run_C03 example_ok) = true /\
-  map (fun r => map n_sig (nodes r)) (run_sys false (init_sys 3%N) (c03_ops example_ok)) <> [[]; []; []].
+  map (fun r => (map n_sig (nodes r), length (tombs r))) (run_sys (init_sys 3%N) (c03_ops example_ok)) =
+  [([5%N], 1%nat); ([5%N], 1%nat); ([5%N], 1%nat)].
 Proof. exact nonvacuous. Qed.
 Print Assumptions C03_nonvacuous.
